@@ -11,6 +11,7 @@ ap = argparse.ArgumentParser()
 ap.add_argument("props", nargs="*")
 ap.add_argument("--par", type=int, default=3)
 ap.add_argument("--tier", default="quick")
+ap.add_argument("--no-write", action="store_true", help="do not update mutants/RESULTS.json")
 a = ap.parse_args()
 
 
@@ -45,7 +46,8 @@ if a.props and os.path.exists(out):
     old = [r for r in json.load(open(out))["results"] if r["property"] not in props]
 allr = sorted(old + res, key=lambda r: (r["property"], r["mutant"]))
 head = subprocess.run(["git", "-C", "/repo", "rev-parse", "--short", "HEAD"], capture_output=True, text=True).stdout.strip()
-json.dump({"tier": a.tier, "repo_head": head, "results": allr}, open(out, "w"), indent=1)
+if not a.no_write:
+    json.dump({"tier": a.tier, "repo_head": head, "results": allr}, open(out, "w"), indent=1)
 bad = [r for r in res if not r["ok"]]
 print("%d mutants, %d unexpected" % (len(res), len(bad)))
 sys.exit(1 if bad else 0)
